@@ -188,7 +188,8 @@ func (p *Parser) parseComment() ast.Node {
 	isBlockComment := (p.curToken.Type() == token.BLOCKCOMMENT)
 	log.Debugf("parseComment: %#v", r)
 	if isBlockComment {
-		if !strings.HasSuffix(p.curToken.Literal(), "*/") {
+		// a closed block comment is at least /**/ (the unterminated /*/ also ends in */).
+		if lit := p.curToken.Literal(); len(lit) < 4 || !strings.HasSuffix(lit, "*/") {
 			log.LogVf("parseComment: block comment not closed: %s", p.curToken.DebugString())
 			p.continuationNeeded = true
 			return nil
